@@ -18,6 +18,9 @@ def boundary_scripts():
         S.append(("destructure-%d" % n, ", ".join("d%d" % i for i in range(n)) + " := [1, 2]\nreturn d0\n"))
         S.append(("free-%d" % n, "\n".join("v%d := %d" % (i, i) for i in range(min(n, 250))) + "\nf := func() { return " + " + ".join("v%d" % i for i in range(min(n, 250))) + " }\nreturn f()\n"))
     for n in (254, 255, 256, 257):
+        vs = "\n".join("v%d := %d" % (i, i) for i in range(n))
+        S.append(("frees-%d" % n, vs + "\nreturn func() { return " + " + ".join("v%d" % i for i in range(n)) + " }\n"))
+        S.append(("frees-nested-%d" % n, "return func() {\n" + vs + "\nreturn func() { return func() { return " + " + ".join("v%d" % i for i in range(n)) + " } }\n}\n"))
         S.append(("callargs-%d" % n, "f := func(...a) { return len(a) }\nreturn f(" + ", ".join("1" for _ in range(n)) + ")\n"))
         S.append(("selectors-%d" % n, "m := {}\nreturn m" + "".join(".a" for _ in range(n)) + "\n"))
     for n in (65535, 65536, 65537):
@@ -29,6 +32,9 @@ def boundary_scripts():
         S.append(("blocks-%d" % d, "if true {" * d + "x := 1" + "}" * d + "\n"))
         S.append(("unary-%d" % d, "return " + "-" * d + "1\n"))
         S.append(("funcs-%d" % min(d, 200), "return " + "func() { return " * min(d, 200) + "1" + " }()" * min(d, 200) + "\n"))
+    # scripts over the symbol table left by the setup script of the "reuse" mode (local zz, global gg, function yy)
+    S += [("reuse-global", "return gg\n"), ("reuse-global-fn", "f := func() { return gg }\nreturn f()\n"), ("reuse-global-set", "gg = 3\nreturn [gg, \"s\"]\n"),
+          ("reuse-local", "return zz\n"), ("reuse-fn", "return yy()\n"), ("reuse-global-decl", "global gg\nreturn gg\n")]
     S += [("rem0", "return 1 % 0\n"), ("rem00", "return 0%0\n"), ("shlneg", "return 1 << -1\n"), ("const-paren-brace", "const(}"),
           ("var-paren-brace", "var(}"), ("param-paren-brace", "param(}"), ("const-x", "const(x=1}"), ("global-paren", "global(}"),
           ("cyclic", "return import(\"c1\")\n"), ("self-import", "return import(\"s1\")\n"), ("unknown-import", "return import(\"nope\")\n")]
@@ -115,10 +121,10 @@ def run(rep, br, proofs, rng, tier):
     for c in cases:
         nm = c.get("name", "")
         out = impl.get(c["id"], "")
-        if nm in ("locals-257", "fn-locals-257", "callargs-256", "callargs-257", "array-65536", "array-65537", "constants-65537") and out.startswith("(ok"):
+        if nm in ("locals-257", "fn-locals-257", "callargs-256", "callargs-257", "array-65536", "array-65537", "constants-65537", "frees-256", "frees-257", "frees-nested-256", "frees-nested-257") and out.startswith("(ok"):
             fails.append((c, "a script beyond a capacity limit compiled: %s" % nm))
         batch_noopt = c["args"][0] == "noopt" and c["args"][2] == "batch"
-        if batch_noopt and nm in ("locals-255", "locals-256", "callargs-254", "callargs-255", "array-65535") and not out.startswith("(ok"):
+        if batch_noopt and nm in ("locals-255", "locals-256", "callargs-254", "callargs-255", "array-65535", "frees-254", "frees-255", "frees-nested-255") and not out.startswith("(ok"):
             fails.append((c, "a script at or below a capacity limit was rejected: %s -> %s" % (nm, out[:100])))
     vlib.log("C05: validating %d functions" % len(wfcases))
     model, _ = vlib.run_model([w["line"] for w in wfcases], timeout=600)
